@@ -150,14 +150,24 @@ class StallSource(io.RawIOBase):
         return n
 
 
-def make_stream(integ, phys, K, fs, lead_empty=False):
+LONG = "L" * 150
+
+
+def make_stream(integ, phys, K, fs, lead_empty=False, mid_empty=False, long=False):
     with notrace():
         items = (ITEMS_T if phys == 1 else ITEMS_Q)[:K]
+        if long:
+            # long lexical forms: frames of >= 128 bytes, i.e. two-byte length prefixes
+            items = [it if i == 0 else it[:3] + (("lit", LONG + str(i), None, None),) + it[4:] for i, it in enumerate(items)]
         opts = pj.make_options(phys, frame_size=fs, generalized=integ == "generic", rdf_star=integ == "generic")
         ser = pj.gen_serialize if integ == "generic" else pj.rdf_serialize
         data = ser(items, phys, opts, entry="flat_file")
         if lead_empty:
             data = b"\x00\x00" + data
+        if mid_empty:
+            from vpkg.ref import wire as _w
+            ln, p2 = _w.dec_varint(data, 0)
+            data = data[:p2 + ln] + b"\x00" + data[p2 + ln:]
         # frame boundaries and the items each frame holds (reference reading of the same bytes)
         from vpkg.ref import jelly as R
         from vpkg.ref import wire
